@@ -87,6 +87,13 @@ class UBase:
             raise
         except RecursionError as e:
             return Outcome(exc=e)
+        except AttributeError as e:
+            # the code under contract asked a stand-in of /verif (stub world, ghost object, proxy) for something it does not
+            # model: a limit of the harness (undecided), not a behaviour of androguard
+            obj = getattr(e, "obj", None)
+            if obj is not None and (type(obj).__module__ or "").split(".")[0] in ("contracts", "specs", "pyvc"):
+                raise Unsupported("stand-in %s.%s has no attribute %r" % (type(obj).__module__, type(obj).__name__, getattr(e, "name", "?")))
+            return Outcome(exc=e)
         except Exception as e:  # the exception is an observable outcome
             return Outcome(exc=e)
 
